@@ -500,9 +500,23 @@ class DimArrayOnDisk(GetSetDelAttrMixin, NetCDFVariable, AbstractDimArray):
                 if ax.name not in dima.dims:
                     continue # (a dimension removed by a scalar index)
                 axis = dima.axes[ax.name]
-                # write unlimited dimensions
+                # write unlimited dimensions: the axis is extended with the labels supplied for the positions beyond
+                # its end; inside the existing range the labels stay as they are (like an in-memory assignment)
                 if self._ds.dimensions[ax.name].isunlimited():
-                    self.axes[ax.name][idx] = axis
+                    size = len(self._ds.dimensions[ax.name])
+                    if isinstance(idx, slice):
+                        stop = idx.stop if (idx.stop is not None and idx.stop > size) else size
+                        positions = np.arange(*idx.indices(stop))
+                    else:
+                        positions = np.atleast_1d(np.asarray(idx))
+                    new = positions >= size
+                    if np.all(new):
+                        self.axes[ax.name][idx] = axis
+                    elif np.any(new):
+                        newpos = positions[new]
+                        if np.all(np.diff(newpos) == 1):
+                            newpos = slice(int(newpos[0]), int(newpos[-1]) + 1)
+                        self.axes[ax.name][newpos] = np.atleast_1d(axis.values)[new]
                 else:
                     # dimension variable already written, simple check
                     ondisk = self.axes[ax.name][idx if not (np.isscalar(idx) or np.ndim(idx)==0)  else [idx]].values
